@@ -102,6 +102,13 @@ def call(src, ants, cfg, act, rate):
         ants[act["a"] - 1].streams[act["p"] - 1].update_noise(stats_calc_num_samples=act["m"])
     elif name == "UpdateNoiseBg":
         src.bg_streams[act["p"] - 1].update_noise(stats_calc_num_samples=act["m"])
+    elif name == "BadRequest":
+        bad = {"negative": -1, "fractional": 2.5}.get(act["kind"], act["n"])
+        try:
+            src.get_samples(bad)
+        except (ValueError, TypeError, AssertionError):
+            return None
+        raise Div("C15" if cfg["kind"] == "array" else "C10", "bad_request.accepted", "an exception", "returned samples for %r" % (bad,), -1)
     else:
         raise RuntimeError("adapter: unknown action %r" % name)
     return None
@@ -160,6 +167,9 @@ def replay(beh, mode, rate_name="dyadic", ascending=True, seed=11, complex_src=F
             del ts_log[:]
             try:
                 v = call(src, ants, cfg, act, rate)
+            except Div as d:
+                d.step = k
+                raise
             except Exception as e:
                 raise Div("C10", "exception", "ok", "%s: %s" % (type(e).__name__, e), k)
             if act["name"] == "GetSamples":
